@@ -263,6 +263,60 @@ def capacity_split(r, F):
     r.require(ok, new, "new shard: capacity = its split share, usage = entries = 0", "a fresh shard starts empty with its share", "a fresh shard does not start with usage 0 / entries 0 / its capacity share", ln=new.lo)
 
 
+def index_eviction_pairing(r, F):
+    """the eviction container holds exactly the resident records that are not handed out: a record leaving the index is unlinked from the container whenever it
+    is flagged in-eviction (on every path), a record entering the index is pushed, a drained index clears the container. Otherwise evict() later pops a record
+    that is no longer resident (subtracting its weight a second time) or can never reach a resident one (usage stays above capacity)"""
+    SH = "foyer_memory::raw::RawCacheShard"
+    n = 0
+    for name in ("emplace", "remove"):
+        f = F.method(SH, name)
+        for c in f.calls_to(r"indexer::Indexer::(remove|insert)$"):
+            some = None
+            for (sb, pl, tm, other) in tables.variant_switch_on(f, c.idx):
+                if "Some" in tm:
+                    some = tm["Some"]
+            if some is None:
+                # `?` on the lookup result: the Continue edge
+                for tb in f.calls_to(r"ops::Try::branch$"):
+                    if any(bb == c.idx for bb, _ in backslice(f, tb.term.args[0], "prov").calls):
+                        for (sb, pl, tm, other) in tables.variant_switch_on(f, tb.idx):
+                            some = tm.get("Continue", some)
+            if some is None:
+                r.fail(f, "index result", "the result of %s is not inspected" % c.term.callee.rsplit("::", 1)[-1], ln=c.term.ln)
+                continue
+            n += 1
+            rms = [b for b in f.calls_to(r"eviction::Eviction::remove$") if any(bb == c.idx for bb, _ in backslice(f, b.term.args[1], "prov").calls)]
+            flag = [b for b in f.calls_to(r"Record::<E>::is_in_eviction$") if any(bb == c.idx for bb, _ in backslice(f, b.term.args[0], "prov").calls) and b.idx in f.reachable([some])]
+            skip = []
+            for fb in flag:
+                for (swb, neg) in tables._bool_switches_on(f, fb.idx):
+                    tt, ft = tables.bool_switch_targets(swb)
+                    if neg:
+                        tt, ft = ft, tt
+                    if any(f.edge_guards(swb.idx, tt, x.idx) for x in rms):
+                        skip.append((swb.idx, ft))
+            ok = bool(rms) and bool(skip) and f.must_pass(some, [b.idx for b in rms], avoid_edges=skip)
+            r.require(ok, f, "%s: record leaving the index (%s) is unlinked if in-eviction" % (name, c.term.callee.rsplit("::", 1)[-1]), "if old.is_in_eviction() { eviction.remove(&old) } on every path of the Some edge",
+                      "RawCacheShard::%s takes a record out of the index without unlinking it from the eviction container when it is flagged in-eviction: evict() later pops a record that already left "
+                      "(its weight is subtracted twice and a second leave notification is produced)" % name, ln=c.term.ln)
+    em = F.method(SH, "emplace")
+    ins = em.calls_to(r"indexer::Indexer::insert$")
+    pu = em.calls_to(r"eviction::Eviction::push$")
+    ok = len(ins) == 1 and len(pu) == 1 and em.must_pass(ins[0].idx, [pu[0].idx]) and 2 in backslice(em, pu[0].term.args[1], "prov", extra_transparent=[r"Clone::clone$"]).args and \
+        2 in backslice(em, ins[0].term.args[1], "prov", extra_transparent=[r"Clone::clone$"]).args
+    n += 1
+    r.require(ok, em, "emplace: indexed record is pushed to the eviction container", "Indexer::insert(record) is followed by Eviction::push(record) on every path",
+              "RawCacheShard::emplace indexes a record without pushing it to the eviction container on every path: the entry can never be evicted and usage stays above capacity", ln=em.lo)
+    cl = F.method(SH, "clear")
+    dr = cl.calls_to(r"indexer::Indexer::drain$")
+    ec = cl.calls_to(r"eviction::Eviction::clear$")
+    n += 1
+    r.require(len(dr) == 1 and len(ec) == 1 and cl.must_pass(0, [ec[0].idx]), cl, "clear: container cleared with the index", "Eviction::clear on every path", "RawCacheShard::clear drains the index without clearing the eviction container", ln=cl.lo)
+    if n < 5:
+        r.fail(None, "sites", "only %d index/eviction pairing sites (5 confirmed)" % n)
+
+
 def run(chk, F):
     chk.run_rule("C05.paired-accounting", "every index mutation of a shard is matched by the usage and entries updates on every path; only shard methods write them", 12, paired_accounting, F)
     chk.run_rule("C05.evict-loop", "evict pops exactly while usage > target, stops on an empty container, removes every victim from the index", 3, evict_loop, F)
@@ -270,3 +324,4 @@ def run(chk, F):
     chk.run_rule("C05.resize", "resize stores the new shard capacity and evicts down to that same value on every path", 5, resize, F)
     chk.run_rule("C05.capacity-split", "construction and resize derive shard capacities from the one quotient/remainder split by shard index; fresh shards start empty", 5, capacity_split, F)
     chk.run_rule("C05.weight-once", "an entry's weight is computed once by the weighter and never rewritten", 2, weight_once, F)
+    chk.run_rule("C05.index-eviction-pairing", "records leaving the index are unlinked from the eviction container when flagged; indexed records are pushed; clear clears both", 5, index_eviction_pairing, F)
